@@ -163,6 +163,32 @@ def c02_check(pairing, seq=None, db=None):
     return errs
 
 
+def c02_check_clique(pairing, seq=None):
+    """mutually crossing stems (a clique): every proper assignment puts the k stems on k different levels, so the optimum is
+    known in closed form - longest stem on level 0, next on level 1, ... (rearrangement inequality) - no enumeration needed"""
+    seq = seq_of(pairing, seq)
+    stems, adj = stem_graph(pairing)
+    k = len(stems)
+    if any(len(adj[a]) != k - 1 for a in range(k)):
+        return ["generator error: not a clique"]
+    db = make_bpseq(pairing, seq).dot_bracket
+    errs = lossless(db, pairing, seq, "dot_bracket")
+    if errs:
+        return errs
+    lv = levels_from_structure(db.structure, stems)
+    if len(set(lv)) != k:
+        return [f"crossing stems share a level: {lv}"]
+    lens = sorted((len(st) for st in stems), reverse=True)
+    best = lens[0] - sum(j * ln for j, ln in enumerate(lens) if j >= 1)
+    got = objective(stems, lv)
+    if got != best:
+        errs.append(f"objective {got} != optimum {best} of the clique (levels {lv})")
+    f = make_bpseq(pairing, seq).fcfs
+    if got < objective(stems, levels_from_structure(f.structure, stems)):
+        errs.append("optimal worse than FCFS")
+    return errs
+
+
 def c16_expected(pairing):
     """set of structures of all greedy-stable proper assignments"""
     stems, adj = stem_graph(pairing)
